@@ -141,4 +141,14 @@ CLAIMED = {
         note='Partial: real-object behaviour is validated, not proved; mesh colours cannot be exercised (ladybug.color absent). '
              'Known findings: hash-keyed equality of 12 classes.',
         technique='machine-checked Coq proof (exhaustive over tables regenerated from the source) + exact search on real objects'),
+    'C14': dict(
+        text='Partial (lives partly in the runtime). Proved: an audit table regenerated from the source shows no call to the wall clock, '
+             'random or id() anywhere in the package and lists the four direct set iterations (each sorted afterwards or over small '
+             'ints); sorting after a set is order-free for any permutation; a counter tie-break makes stamps positions; reading a memo '
+             'leaves data and observation unchanged. Enforced dynamically: an introspected sweep over ~600 public callables with deep '
+             'before/after snapshots of receiver, arguments and caller lists and a repeated call, and a workload digest compared across '
+             'PYTHONHASHSEED 0/1/2/random and under a frozen and a backwards-running clock.',
+        note='Partial: absence of mutation is a dynamic check (a functional model is pure by construction). Trusted: Coq kernel, '
+             'tools/audit.py, harness.',
+        technique='machine-checked Coq proof of the logical part over an audit table regenerated from the source; dynamic snapshot sweep'),
 }
